@@ -169,7 +169,7 @@ def rand_spec(rng, **force):
         pool = ENGINES_ROOT if lvl == 0 else (ENGINES_LEAF if last else ENGINES_MID)
         pool = force.get("engines", {}).get(lvl, pool) if isinstance(force.get("engines"), dict) else pool
         k = str(rng.choice(pool))
-        L = {"engine": k, "generations": int(rng.integers(1, 4)), "pop_size": int(rng.integers(5, 13)), "lsc": lsc(), "sample_std_dev": 0.1 * scale}
+        L = {"engine": k, "generations": int(rng.integers(force.get("min_generations", 1), max(4, force.get("min_generations", 1) + 2))), "pop_size": int(rng.integers(5, 13)), "lsc": lsc(), "sample_std_dev": 0.1 * scale}
         if k in ("sea", "seax", "ga", "adapt", "mwea", "xsea"):
             L["k_elites"] = int(rng.integers(1, 3))
             L["mutation_std"] = 0.15 * scale
